@@ -9,6 +9,7 @@ import (
 	"bytes"
 	"fmt"
 	"io"
+	"math"
 	"math/rand/v2"
 	"os"
 	"time"
@@ -111,6 +112,10 @@ func c01GenOps(rng *rand.Rand, P, M, nops int, withTruncate bool) []vfOp {
 			o := off
 			if wh != 0 && rng.IntN(2) == 0 {
 				o = -int64(rng.IntN(2*P + 1))
+			}
+			if wh != 0 && rng.IntN(10) == 0 {
+				// relative seeks whose target does not fit an int64 (it wraps to a negative number): rejected, no move
+				o = math.MaxInt64 - int64(rng.IntN(3))
 			}
 			ops = append(ops, vfOp{K: "seek", Off: o, A: int64(wh)})
 		default:
@@ -294,6 +299,22 @@ func (v *vfFileSystem) cleanup() {
 	}
 }
 
+// c01HugeSeekLands: a relative seek by nearly MaxInt64 that does NOT overflow (base 0) would park the offset at the end
+// of the number line, where no backend can follow; such a call is not made.
+func c01HugeSeekLands(ref *refFile, op vfOp) bool {
+	if op.K != "seek" || op.Off < 1<<60 {
+		return false
+	}
+	base := int64(0)
+	switch op.A {
+	case 1:
+		base = ref.off
+	case 2:
+		base = int64(len(ref.data))
+	}
+	return base+op.Off >= 0
+}
+
 // c01Apply executes the reference semantics of op and compares with the observed result.
 // It returns a non-empty message on mismatch.
 func c01Apply(ref *refFile, res *vfOpResult, closed bool) string {
@@ -431,6 +452,10 @@ func c01Exec(r *vfRun) {
 	chunks := 0
 	tk := vfSpawnTask(sim, 0, len(prog), func(i int) {
 		if mismatch != "" {
+			return
+		}
+		if i > 0 && c01HugeSeekLands(ref, prog[i]) {
+			results[i] = &vfOpResult{Op: prog[i], Returned: true}
 			return
 		}
 		res := env.do(prog[i])
